@@ -17,8 +17,6 @@ package main
 import (
 	"fmt"
 	"sort"
-	"os"
-	"runtime/pprof"
 	"strings"
 	"sync"
 	"time"
@@ -481,10 +479,7 @@ func main() {
 		r.Finish()
 	}
 
-	pf, _ := os.Create("/tmp/c18-smoke/cpu.prof")
-	pprof.StartCPUProfile(pf)
-	defer pprof.StopCPUProfile()
-	depth := r.Pick(5, 7)
+	depth := r.Pick(8, 16)
 	cfgs := []config{
 		{User: sessrig.UserRWS, KS: false}, {User: sessrig.UserRW, KS: false},
 		{User: sessrig.UserRWS, KS: true}, {User: sessrig.UserRW, KS: true},
@@ -540,7 +535,8 @@ func main() {
 			maxDepth = st.MaxDepth
 		}
 		perCfg[cfg.String()] = map[string]interface{}{"states": st.States, "transitions": st.Transitions, "depth": st.MaxDepth,
-			"frontier_per_depth": st.PerDepth, "violating_histories": st.Violations}
+			"frontier_per_depth": st.PerDepth, "violating_histories": st.Violations,
+			"state_space_closed": len(st.PerDepth) > 0 && st.PerDepth[len(st.PerDepth)-1] == 0}
 		if st.Capped {
 			r.Capped(fmt.Sprintf("time budget hit in configuration %s at depth %d", cfg, st.MaxDepth))
 			break
@@ -572,6 +568,5 @@ func main() {
 			ev.Fatalf("vacuous run: fact %q never observed", f)
 		}
 	}
-	pprof.StopCPUProfile()
 	r.Finish()
 }
